@@ -166,6 +166,23 @@ func probeAll() string {
 
 var freshProbe string
 
+// sepProbe: the same sub-key arguments, written with every separator of the alphabet, under the
+// separator cur: "id<s>1" is a condition (one member selected) exactly when splitting it at cur
+// gives two fields, and a malformed argument (an error) otherwise.
+func sepProbe(cur string) string {
+	m := mxj.Map{"rec": []interface{}{map[string]interface{}{"id": "1", "n": "a"}, map[string]interface{}{"id": "2", "n": "b"}}}
+	for _, s := range []string{"|", "::", ":", "é", ";"} {
+		arg := "id" + s + "1"
+		vs, err := m.ValuesForPath("rec", arg)
+		vk, errk := m.ValuesForKey("rec", arg)
+		want := len(strings.Split(arg, cur)) == 2
+		if want != (err == nil && len(vs) == 1) || want != (errk == nil && len(vk) == 1) {
+			return fmt.Sprintf("SEPARATOR with the field separator %q the sub-key argument %q is read as if another separator were in force (ValuesForPath: %d value(s), %v; ValuesForKey: %d, %v)", cur, arg, len(vs), err, len(vk), errk)
+		}
+	}
+	return ""
+}
+
 func hasKeyAnywhere(v interface{}, key string) bool {
 	switch x := v.(type) {
 	case map[string]interface{}:
@@ -315,6 +332,13 @@ func c18Exec(op string) string {
 		case cl.name == "PrependAttrWithHyphen" && cl.arg == true:
 			if o["attrPrefix"] != "-" {
 				notes = append(notes, "RESET PrependAttrWithHyphen(true) did not restore the hyphen prefix")
+			}
+		}
+		// what a sub-key argument means depends on the separator in force NOW, not on what it
+		// meant when the same argument was last used
+		if cl.name == "SetFieldSeparator" {
+			if n := sepProbe(o["fieldSep"]); n != "" {
+				notes = append(notes, n)
 			}
 		}
 		if o["xmlEscapeChars"] == "true" && o["xmlEscapeCharsDecoder"] == "true" {
